@@ -2,10 +2,13 @@ package main
 
 import (
 	"github.com/vulcand/oxy/v2/zverif/c01"
+	"github.com/vulcand/oxy/v2/zverif/c02"
 	"github.com/vulcand/oxy/v2/zverif/c17"
 )
 
 func init() {
+	parts["c02"] = c02.Run
+	replays["c02"] = c02.Replay
 	parts["c01"] = c01.Run
 	replays["c01"] = c01.Replay
 	parts["c17"] = c17.Run
